@@ -33,12 +33,40 @@ def main(argv):
         ctx.level = getattr(mod, "LEVEL", "exploration")
         mod.run(ctx)
         code = ctx.finish()
-    except BaseException:  # checker crash: never a violation
+    except BaseException as exc:  # checker crash: never a violation ...
         ctx.close()
         traceback.print_exc()
+        lib = _raised_inside_library(exc)
+        if lib is not None:
+            # ... unless it is the LIBRARY that raised, on an input the check hands to it while building its
+            # domains / observations (which the unchanged tree accepts, with the same seed): that call is the
+            # failing input.  Recorded like a failing case of the pseudo-check <ID>.setup.
+            ctx.failures.setdefault(f"{prop}.setup", []).append({
+                "input": lib["call"], "expected": "the call returns (as on the unchanged tree)",
+                "actual": f"raised {type(exc).__name__}: {exc}", "note": lib["trace"]})
+            try:
+                return ctx.finish()
+            except BaseException:  # noqa: BLE001
+                traceback.print_exc()
         print(f"CHECKER-CRASH property={prop}", file=sys.stderr)
         return 3
     return code
+
+
+def _raised_inside_library(exc):
+    """the innermost frame of an ordinary exception lies in the package under test"""
+    if not isinstance(exc, Exception) or isinstance(exc, (MemoryError, ImportError, RuntimeError)):
+        return None
+    frames = traceback.extract_tb(exc.__traceback__)
+    if not frames:
+        return None
+    lib_dir = os.path.join(repo.REPO, "permuta") + os.sep
+    if not os.path.abspath(frames[-1].filename).startswith(lib_dir):
+        return None
+    first_lib = next(i for i, f in enumerate(frames) if os.path.abspath(f.filename).startswith(lib_dir))
+    caller = frames[first_lib - 1] if first_lib > 0 else frames[0]
+    return {"call": f"{os.path.basename(caller.filename)}:{caller.lineno}: {caller.line}",
+            "trace": "".join(traceback.format_list(frames[max(0, first_lib - 1):]))[-1500:]}
 
 
 def replay(path):
